@@ -177,6 +177,17 @@ var propSpecs = []PropSpec{
 				cfg.Preempt = 0
 			}
 		}},
+	{ID: "C03", Pkgs: []string{"."},
+		BoundsQ:     "table: the real CanContinueOnError with the three option bits symbolic, ExcludedErrors in {none, {E}}, 13 error shapes; scenarios: ProcessParallel over <=4 items and Map over <=3 items with 1-2 workers, the user function failing on one chosen item with one of 5 kinds (plain error, panic, skip, EOF, excluded), continue options on or off, preemption bound 1",
+		BoundsT:     "preemption bound 2",
+		Outside:     "GenerateParallel and the itertool wrappers (same classification code, not run as scenarios); two failing items; custom collectors; more workers/items",
+		Assumptions: commonAssumptions,
+		Tune: func(cfg *Config, tier, entry string) {
+			cfg.Preempt = 1
+			if tier == "thorough" {
+				cfg.Preempt = 2
+			}
+		}},
 	{ID: "TV", Pkgs: []string{"internal"}, BoundsQ: "translator validation corpus"},
 }
 
